@@ -85,7 +85,7 @@ SHARED = {
  "C08": "Also enforces (shared with C10.R5) that the flusher re-checks the context and flushes inside one write-locked section, and (C08.R3) that no live-index mutation relies on a verdict obtained before the handle lock was released.",
  "C12": "Also enforces (shared with C01.R2) that deletes evict cache and pending entries under every cache/async valuation, and that an empty constraint stays a constraint in both evaluators.",
  "C13": "Also enforces (shared with C02.R5) that nothing writes through a slice aliasing the live field index, that the sorted slice is only written by sorted insertion / compaction / reset / decoder, and that the iterator always advances.",
- "C17": "Also enforces (shared with C10.R8) that the settings' private 'flusher started' flag is never duplicated by a value copy, and that Create never writes layout fields of the stored schema.",
+ "C17": "Also enforces (C17.R6) that Create never writes layout fields of the stored schema.",
  "C18": "Also enforces (shared with C16.R4) the struct-tag word to constraint-flag table of the pinned release, and (shared with C17.R6) that Create never changes Extension / Compress / Fields of a stored schema. The value-level directory-name mapping (camelToSnake) is not decided.",
  "C19": "Also enforces (shared with C17.R2, C11.R3, C11.R7, C02.R4) that a schema is published only after a successful control or a membership-corruption verdict, and that the class guard lies on every path to the comparators.",
  "C02": "Also enforces that the indexed pattern search returns only entries appended under a successful MatchString.",
